@@ -12,6 +12,10 @@ Definition run_crc (op : string) (a : list val) : list val :=
     [VN (spec_crc c l); VN (spec_crc (spec_crc c (firstn k l)) (skipn k l))]
   else if String.eqb op "crc.u16" then
     [VN (spec_crc (argN 0 a) (List.concat (map host_bytes16 (argLN 1 a))))]
+  else if String.eqb op "crc.buf" then
+    (* ufw_buffer_crc16_arc / ufw_buffer_crc16_arc_u16: initial value 0; the word variant sees the first 2*(n/2) octets *)
+    let l := argH 0 a in
+    [VN (spec_crc 0 l); VN (spec_crc 0 (firstn (2 * (length l / 2)) l))]
   else [VS "unknown-op"].
 
 (* ---------------- shared helpers ---------------- *)
@@ -220,6 +224,19 @@ Definition run_ep (op : string) (a : list val) : list val :=
       | Some (rc, s', k', aux) => [vdres rc; VH (k_got k'); src_pos total s'; VH aux] end in
     let aux := repeat 238 (N.to_nat (argN 5 a)) in
     if String.eqb op "ep.cbc" then fin3 (sts_cbc s k)
+    else if String.eqb op "ep.atmost" then fin3 (sts_atmost s k (argN 5 a))
+    else if String.eqb op "ep.some" then fin3 (sts_atmost s k 0)
+    else if String.eqb op "ep.octets" then
+      (fix go (fuel : nat) (s : src) (k : snk) : list val :=
+         match fuel with
+         | O => [VH (k_got k); src_pos total s]
+         | S f =>
+             match source_get_octet s with
+             | (DOk c, x :: _, s') => if c =? 0 then ([VN 0; VS "-"; VS "-"] ++ go f s' k)%list
+                                      else let '(r, k') := sink_put_octet k x in ([VN c; VN x; vdres r] ++ go f s' k')%list
+             | (r, _, s') => ([vdres r; VS "-"; VS "-"] ++ go f s' k)%list
+             end
+         end) (N.to_nat (N.min (argN 5 a) 16)) s k
     else if String.eqb op "ep.ncbc" then fin3 (sts_n_cbc (N.to_nat (argN 5 a)) (argN 5 a) s k)
     else if String.eqb op "ep.draincbc" then fin3o (sts_drain_cbc (sts_fuel s k (N.of_nat total)) s k)
     else if String.eqb op "ep.stsn" then fin3o (sts_n s k (argN 5 a))
